@@ -245,10 +245,15 @@ pub fn c05b_probes(ctx: &Ctx) -> Vec<Probe> {
                 _ => ("vp_shared1".to_string(), if near { "vp_shared_1".to_string() } else { "vp_shared1".to_string() }),
             }
         };
+        // a method of that name but another kind in the same part cannot coexist (one fn name per
+        // impl / trait): take another base program instead of deleting it
+        let clash = |prog: &Program, part: usize, name: &str| prog.methods_of(part).iter().any(|m| m.name == name && m.kind() != Some(kind));
+        if clash(&p, a, &name_a) || clash(&p, b, &name_b) {
+            continue;
+        }
         let ensure = |prog: &mut Program, part: usize, name: &str, first: bool| {
             let ms = if part == 0 { &mut prog.contract.methods } else { &mut prog.interfaces[part - 1].methods };
             if !ms.iter().any(|m| m.name == name && m.kind() == Some(kind)) {
-                ms.retain(|m| m.name != name);
                 let mut m = method(name, kind, vec![]);
                 if part > 0 {
                     m.err = ErrTy::Custom;
